@@ -320,6 +320,13 @@ def Sys.sip (s : Sys) (i : Nat) (k : Nat) : Sys :=
   | none => s
   | some n => if n.kind == "sub" then s.setNode i { n with q := n.q.drop k, bAt := n.bAt - k } else s
 
+/-- the same when the events read are known (a read may stop in the middle of a batch, whose order is free):
+what is left in the buffer is given -/
+def Sys.sipTo (s : Sys) (i : Nat) (rest : List (Ev Obj)) : Sys :=
+  match s.node i with
+  | none => s
+  | some n => if n.kind == "sub" then s.setNode i { n with q := rest, bAt := n.bAt - (n.q.length - rest.length) } else s
+
 def Sys.monDrain (s : Sys) (i : Nat) : Sys :=
   match s.node i with
   | none => s
